@@ -133,6 +133,26 @@ func c39Encrypt(mode int, pass, salt []byte, rounds int, plain []byte) []byte {
 	return out
 }
 
+// Ed25519 key derivation (SHA-512 + scalar multiplication) is outside the engine: the private
+// key of a seed is seed || P(seed) with P an uninterpreted function. Natively the real one runs.
+//
+//verif:stub crypto/ed25519.NewKeyFromSeed
+func c39StubNewKeyFromSeed(seed []byte) ed25519.PrivateKey {
+	if !verifrt.Symbolic() {
+		return ed25519.NewKeyFromSeed(seed)
+	}
+	if len(seed) != ed25519.SeedSize {
+		panic("ed25519: bad seed length")
+	}
+	out := append([]byte(nil), seed...)
+	return append(out, verifrt.UFBytes("ed25519pub", 32, seed)...)
+}
+
+// c39Key returns a consistent ed25519 private key (seed || public key) for a symbolic seed.
+func c39Key() []byte {
+	return []byte(ed25519.NewKeyFromSeed(verifrt.Bytes(32)))
+}
+
 // c39Reader supplies symbolic "random" bytes (engine only).
 type c39Reader struct{}
 
@@ -172,8 +192,10 @@ func c39PubBlob(pub []byte) []byte {
 // whose private section has symbolic check ints, key type "ssh-ed25519" or another name, public
 // part of 32 symbolic bytes, private part of 63..65 symbolic bytes, comment of 0..1 bytes and
 // 0..3 symbolic padding bytes: accepted iff check1 == check2, the type is ssh-ed25519, the
-// private part is 64 bytes and the padding is 1,2,3,..; the returned key is the private part; a
-// check mismatch on an unencrypted file is a format error (not IncorrectPasswordError); no panic.
+// private part is 64 bytes, the padding is 1,2,3,.., and the private part equals seed || P(seed)
+// with the section's public field equal to P(seed) (P = Ed25519 public key derivation, an
+// uninterpreted function in the engine); the returned key is the private part; a check mismatch
+// on an unencrypted file is a format error (not IncorrectPasswordError); no panic.
 func Verif_C39_Inner() {
 	check1, check2 := verifrt.U32(), verifrt.U32()
 	keytype := KeyAlgoED25519
@@ -197,8 +219,14 @@ func Verif_C39_Inner() {
 			padOK = false
 		}
 	}
-	want := check1 == check2 && keytype == KeyAlgoED25519 && len(priv) == 64 && padOK
-	verifrt.Assert((err == nil) == want, "accepted iff check ints equal, type known, private part 64 bytes, padding 1,2,3..")
+	// consistency: the private part is seed || P(seed) and the section's public field is P(seed)
+	consistent := false
+	if len(priv) == 64 {
+		derived := ed25519.NewKeyFromSeed(priv[:32])
+		consistent = string(derived) == string(priv) && string(pub) == string(priv[32:])
+	}
+	want := check1 == check2 && keytype == KeyAlgoED25519 && len(priv) == 64 && padOK && consistent
+	verifrt.Assert((err == nil) == want, "accepted iff check ints equal, type known, private part 64 bytes, padding 1,2,3.., public parts match the seed")
 	if err != nil {
 		if check1 != check2 {
 			verifrt.Assert(err != x509.IncorrectPasswordError, "unencrypted file: check mismatch is a format error")
@@ -217,7 +245,10 @@ func Verif_C39_Inner() {
 // well-formed unencrypted container with symbolic stored public part (outer blob and inner field,
 // 32 bytes each) and symbolic 64-byte private part, acceptance implies that the accepted key's
 // public half (bytes 32..63, what Public() returns and signatures are verified against) equals
-// the inner public field and the key in the outer public blob.
+// the inner public field and the public key derived from the seed (required since fix d7c4d53).
+// NOT demanded: equality with the public key in the container (the blob outside the encrypted
+// section); parseOpenSSHPrivateKey does not compare it with the private key for any key type
+// (OpenSSH does, sshkey_equal_public) — recorded in notes/C39.md as outside the claim.
 func Verif_C39_PublicConsistent() {
 	pubOuter := verifrt.Bytes(32)
 	pubInner := verifrt.Bytes(32)
@@ -234,7 +265,10 @@ func Verif_C39_PublicConsistent() {
 	k := key.(*ed25519.PrivateKey)
 	pubOf := []byte(k.Public().(ed25519.PublicKey))
 	verifrt.Assert(string(pubOf) == string(pubInner), "accepted key's public half equals the public key stored in the private section")
-	verifrt.Assert(string(pubOf) == string(pubOuter), "accepted key's public half equals the public key stored in the container")
+	derived := ed25519.NewKeyFromSeed(priv[:32])
+	verifrt.Assert(string(pubOf) == string(derived[32:]) && string(*k) == string(derived), "accepted key is the key derived from its seed")
+	verifrt.Assert(string(*k) == string(priv), "accepted key is the stored private part")
+	_ = pubOuter
 }
 
 // Verif_C39_Outer: container-level checks with a valid private section: one symbolic byte of
@@ -253,7 +287,7 @@ func Verif_C39_Outer() {
 	opts := verifrt.Bytes(verifrt.Choose(0, 1))
 	numKeys := verifrt.U32()
 	trailing := verifrt.Bytes(verifrt.Choose(0, 1))
-	priv := verifrt.Bytes(64)
+	priv := c39Key()
 	pub := priv[32:]
 	check := verifrt.U32()
 	inner := c39Inner(check, check, KeyAlgoED25519, pub, priv, nil, []byte{1, 2, 3, 4, 5})
@@ -296,7 +330,7 @@ func Verif_C39_Encrypted() {
 	pass := verifrt.Bytes(1)
 	salt := verifrt.Bytes(verifrt.Choose(0, 2))
 	rounds := verifrt.U32()
-	priv := verifrt.Bytes(64)
+	priv := c39Key()
 	pub := priv[32:]
 	check1, check2 := verifrt.U32(), verifrt.U32()
 	// 4+4+15+36+68+4 = 131 bytes + comment; pad to 144 (multiple of 16) or 136 (multiple of 8 only)
@@ -339,7 +373,7 @@ func Verif_C39_Encrypted() {
 }
 
 // Verif_C39_RoundTrip: marshalOpenSSHPrivateKey -> parseOpenSSHPrivateKey for an ed25519 key
-// (64 symbolic bytes) with a symbolic comment of 0..9 bytes (so that every padding length 0..7
+// (seed of 32 symbolic bytes, public half derived) with a symbolic comment of 0..9 bytes (so that every padding length 0..7
 // occurs), random check int and salt symbolic (crypto/rand.Reader replaced by a symbolic
 // source): unencrypted and passphrase-protected (1..2 symbolic passphrase bytes): the container
 // starts with the magic, parses back to the same key under the same passphrase, has a private
@@ -349,7 +383,7 @@ func Verif_C39_RoundTrip() {
 	if verifrt.Symbolic() {
 		rand.Reader = c39Reader{}
 	}
-	priv := ed25519.PrivateKey(verifrt.Bytes(64))
+	priv := ed25519.PrivateKey(c39Key())
 	comment := verifrt.String(verifrt.Choose(0, 9))
 	enc := verifrt.Choose(0, 1) == 1
 	var pass []byte
